@@ -130,6 +130,10 @@ class Xunitary(Compiler):
         if A != []:
             raise CircuitError("There can be no operations before the S2gates.")
 
+        # operations that could not be moved out of the group of S2gates act between two S2gates
+        if any(not isinstance(cmd.op, ops.S2gate) for cmd in B):
+            raise CircuitError("There can be no operations between the S2gates.")
+
         regrefs = set()
 
         if B:
